@@ -27,6 +27,7 @@ import IocProofs.Lemmas.ConcReg
 import IocProofs.Lemmas.ConcPref
 import IocProofs.Lemmas.SemSync2
 import IocProofs.Lemmas.ConcNinth
+import IocProofs.Lemmas.SemFacAccess
 
 namespace Ioc.C20
 open Ioc.Conc
@@ -573,5 +574,23 @@ example : fieldAfterDefault 1 = some 7 ∧ ∀ t op, op ∈ getterQueues 5 t →
   split at h
   · simpa using h
   · simp at h
+
+/-- factory.Default and the accessors of defaultFactory, regenerated (interpretation Ioc.SemFacAccess): the definition
+    registry, the singleton-component registry and the delegate are BUILT WHEN THE FACTORY IS MADE; `GetDefinitionRegistry`
+    — called by every goroutine of the parallel definition scan — only READS the member (no lazily created shared state, so
+    nothing for the goroutines to race on), and so do the other getters; the setters write exactly the member they name -/
+theorem C20_code_factory_accessors (w : Sem.FacObj) (r c p n : Go.Val) :
+    Go.run Sem.fdPrims Progs.fac_Default [] w =
+      some (.tuple [.str "defaultFactory", .str "new definition registry", .str "new singleton component registry",
+                    .str "new delegate", .bool true], w) ∧
+    Go.run Sem.faPrims Progs.fac_GetDefinitionRegistry [] w = some (w.definitionRegistry, w) ∧
+    Go.run Sem.faPrims Progs.fac_GetConfigure [] w = some (w.configure, w) ∧
+    Go.run Sem.faPrims Progs.fac_GetRegisteredComponents [] w = some (w.registeredComponents, w) ∧
+    Go.run Sem.faPrims Progs.fac_GetDefinitionRegistryPostProcessors [] w = some (w.defPPs, w) ∧
+    Go.run Sem.faPrims Progs.fac_SetRegistry [r] w = some (.tuple [], { w with singletonRegistry := r }) ∧
+    Go.run Sem.faPrims Progs.fac_SetConfigure [c] w = some (.tuple [], { w with configure := c }) ∧
+    Go.run Sem.faPrims Progs.fac_registerBeanPostProcessors [p, n] w =
+      some (.tuple [], { w with beanPPCalls := w.beanPPCalls ++ [(p, n)] }) :=
+  ⟨Sem.facDefault_sem w, Sem.facAccessors_sem w r c p n⟩
 
 end Ioc.C20
